@@ -331,79 +331,91 @@ def fn_to_sympy(
         return None
 
 
-def _handle_fn_body(body: list[ast.stmt], ctx: Context) -> sympy.Expr | None:
-    pieces = []
-    remaining_body = list(body)
+_NO_RETURN = object()
 
-    while remaining_body:
-        node = remaining_body.pop(0)
 
+def _piecewise(
+    if_expr: sympy.Expr, condition: sympy.Expr, else_expr: sympy.Expr
+) -> sympy.Expr:
+    """Piecewise of two alternatives; an else-alternative that is a Piecewise is spliced in."""
+    if isinstance(else_expr, sympy.Piecewise):
+        return sympy.Piecewise((if_expr, condition), *else_expr.args)
+    return sympy.Piecewise((if_expr, condition), (else_expr, True))
+
+
+def _handle_block(body: list[ast.stmt], ctx: Context) -> Any:
+    """Translate a statement list.
+
+    Returns the expression of the value returned by the block, None if a
+    part could not be translated, or _NO_RETURN if the block falls through
+    without returning (in which case ctx.symbols holds its assignments).
+    Every branch of a conditional is translated on its own copy of the
+    symbols, followed by the statements after the conditional, so a branch
+    neither sees nor leaks the other branch's assignments.
+    """
+    for idx, node in enumerate(body):
         if isinstance(node, ast.If):
             condition = _handle_expr(node.test, ctx)
-            if_expr = _handle_fn_body(node.body, ctx)
-            pieces.append((if_expr, condition))
+            if condition is None:
+                return None
+            rest = body[idx + 1 :]
+            ctx_if = ctx.updated(symbols=dict(ctx.symbols))
+            ctx_else = ctx.updated(symbols=dict(ctx.symbols))
+            if_expr = _handle_block([*node.body, *rest], ctx_if)
+            else_expr = _handle_block([*node.orelse, *rest], ctx_else)
+            if if_expr is None or else_expr is None:
+                return None
+            if if_expr is _NO_RETURN and else_expr is _NO_RETURN:
+                # No branch returns: merge the assignments of both branches
+                for name in {**ctx_if.symbols, **ctx_else.symbols}:
+                    v_if = ctx_if.symbols.get(name)
+                    v_else = ctx_else.symbols.get(name)
+                    if v_if is None or v_else is None:
+                        # Only bound in one branch, cannot be used safely
+                        ctx.symbols.pop(name, None)
+                    elif v_if == v_else:
+                        ctx.symbols[name] = v_if
+                    else:
+                        ctx.symbols[name] = _piecewise(v_if, condition, v_else)
+                return _NO_RETURN
+            if if_expr is _NO_RETURN or else_expr is _NO_RETURN:
+                msg = "Not all branches return a value"
+                raise ValueError(msg)
+            return _piecewise(if_expr, condition, else_expr)
 
-            # If there's an else clause
-            if node.orelse:
-                # Check if it's an elif (an If node in orelse)
-                if len(node.orelse) == 1 and isinstance(node.orelse[0], ast.If):
-                    # Push the elif back to the beginning of remaining_body to process next
-                    remaining_body.insert(0, node.orelse[0])
-                else:
-                    # It's a regular else
-                    else_expr = _handle_fn_body(node.orelse, ctx)  # FIXME: copy here
-                    pieces.append((else_expr, True))
-                    break  # We're done with this chain
-
-            elif not remaining_body and any(
-                isinstance(n, ast.Return) for n in body[body.index(node) + 1 :]
-            ):
-                else_expr = _handle_fn_body(
-                    body[body.index(node) + 1 :], ctx
-                )  # FIXME: copy here
-                pieces.append((else_expr, True))
-
-        elif isinstance(node, ast.Return):
+        if isinstance(node, ast.Return):
             if (value := node.value) is None:
                 msg = "Return value cannot be None"
                 raise ValueError(msg)
+            return _handle_expr(value, ctx)
 
-            expr = _handle_expr(value, ctx)
-            if not pieces:
-                return expr
-            pieces.append((expr, True))
-            break
-
-        elif isinstance(node, ast.Assign):
-            # Handle tuple assignments like c, d = a, b
+        if isinstance(node, ast.Assign):
+            if len(node.targets) != 1:
+                msg = "Only single variable assignments are supported"
+                raise TypeError(msg)
             if isinstance(node.targets[0], ast.Tuple):
-                # Handle tuple unpacking
                 target_elements = node.targets[0].elts
-
-                if isinstance(node.value, ast.Tuple):
-                    # Direct unpacking like c, d = a, b
-                    value_elements = node.value.elts
-                    for target, value_expr in zip(
-                        target_elements, value_elements, strict=True
-                    ):
-                        if isinstance(target, ast.Name):
-                            expr = _handle_expr(value_expr, ctx)
-                            if expr is None:
-                                return None
-                            ctx.symbols[target.id] = expr
-                else:
-                    # Handle potential iterable unpacking
-                    value = _handle_expr(node.value, ctx)
+                if not isinstance(node.value, ast.Tuple) or not all(
+                    isinstance(target, ast.Name) for target in target_elements
+                ):
+                    msg = "Only tuple assignments of names from tuples are supported"
+                    raise TypeError(msg)
+                # Evaluate all values before binding any name (a, b = b, a)
+                values = []
+                for value_expr in node.value.elts:
+                    if (expr := _handle_expr(value_expr, ctx)) is None:
+                        return None
+                    values.append(expr)
+                for target, expr in zip(target_elements, values, strict=True):
+                    ctx.symbols[cast(ast.Name, target).id] = expr
             else:
-                # Regular single assignment
                 if not isinstance(target := node.targets[0], ast.Name):
                     msg = "Only single variable assignments are supported"
                     raise TypeError(msg)
-                target_name = target.id
                 value = _handle_expr(node.value, ctx)
                 if value is None:
                     return None
-                ctx.symbols[target_name] = value
+                ctx.symbols[target.id] = value
 
         elif isinstance(node, ast.Import):
             for alias in node.names:
@@ -425,14 +437,30 @@ def _handle_fn_body(body: list[ast.stmt], ctx: Context) -> sympy.Expr | None:
                     ctx.modules[name] = el
                 else:
                     _LOGGER.debug("Skipping import %s", node)
+
+        elif isinstance(node, ast.Pass) or (
+            isinstance(node, ast.Expr)
+            and isinstance(node.value, ast.Constant)
+            and isinstance(node.value.value, str)
+        ):
+            # Docstrings and pass do not change the value
+            continue
+
         else:
-            _LOGGER.debug("Skipping node of type %s", type(node))
+            # Anything else (augmented assignment, loops, ...) can change the
+            # value of the function, so it cannot just be skipped
+            msg = f"Statement type {type(node).__name__} not implemented"
+            raise NotImplementedError(msg)
 
-    # If we have pieces to combine into a Piecewise
-    if pieces:
-        return sympy.Piecewise(*pieces)
+    return _NO_RETURN
 
-    # If no return was found but we have assignments, return the last assigned variable
+
+def _handle_fn_body(body: list[ast.stmt], ctx: Context) -> sympy.Expr | None:
+    value = _handle_block(list(body), ctx)
+    if value is not _NO_RETURN:
+        return cast(sympy.Expr | None, value)
+
+    # If no return statement was found, look for the last assignment
     for node in reversed(body):
         if isinstance(node, ast.Assign) and isinstance(node.targets[0], ast.Name):
             target_name = node.targets[0].id
